@@ -20,7 +20,7 @@ OWNER_API = {'tulz::ThreadPool': {'start', 'clear', 'update', 'stop', 'getExpiry
 OUTSIDE_INTENDED_USE = {'tulz::ThreadPool::setExpiryTimeout', 'tulz::ThreadPool::setMaxThreadCount'}
 ANY_THREAD = {'tulz::rwp::Resource': None,            # every public member
               'tulz::rwp::ReadLock': None, 'tulz::rwp::WriteLock': None,
-              'tulz::ConcurrentSubjectRouter': {'notify', 'subscribe', 'shrink', 'exists', 'depth'}}
+              'tulz::ConcurrentSubjectRouter': None}       # every public member, whatever is added to the class: that any thread may call it is what the class is for
 
 
 def collect(facts, rep):
@@ -30,7 +30,7 @@ def collect(facts, rep):
     for f in facts.fns:
         cls = f.d.get('class'); base = f.qname.split('::')[-1]
         if f.d.get('lambda') or f.d.get('access') != 'public' or f.d.get('dtor'): continue
-        if cls in OWNER_API and (base in OWNER_API[cls]) and (not f.d.get('ctor') or cls == 'tulz::Thread'):
+        if cls in OWNER_API and (base in OWNER_API[cls] or (f.qname not in OUTSIDE_INTENDED_USE and not f.d.get('ctor') and not base.startswith('operator'))) and (not f.d.get('ctor') or cls == 'tulz::Thread'):
             roots.append((f, 'owner'))
         elif cls in ANY_THREAD and (ANY_THREAD[cls] is None or base in ANY_THREAD[cls]) and not (f.d.get('ctor') and cls == 'tulz::rwp::Resource'):
             roots.append((f, 'any'))
